@@ -79,7 +79,7 @@ def hertz_sneddon_spherical_approx(delta, E, R, nu, contact_point=0,
     aa = 4/3 * E/(1-nu**2)*np.sqrt(R)
     root = contact_point-delta
     pos = root > 0
-    bb = np.zeros_like(delta)
+    bb = np.zeros_like(delta, dtype=float)
     bb[pos] = (root[pos])**(3/2)*(
         + 1
         - 1/10*(root[pos]/R)
